@@ -227,13 +227,14 @@ def run(ctx):
                 b.add("Decimal", fmt, False, "40" if fmt == "fixed" else "", rule, cells, expect, dec=dec_sep, thou=thou, tag="decimal")
     # ---- Choice / Constant / Text ------------------------------------------------------------------------------------
     for rule, choices in [("red, green, blue", ["red", "green", "blue"]), ("'red', \"green\",blue", ["red", "green", "blue"]),
-                          ("\"a b\", 'x,y', z", ["a b", "x,y", "z"]), ("1, 2, 10", ["1", "2", "10"]), ("é, ö", ["é", "ö"]), ("A,a", ["A", "a"])]:
-        cells = choices + [c.upper() for c in choices] + [c + " " for c in choices] + ["", "nope", choices[0][:-1] or "q"]
+                          ("\"a b\", 'x,y', z", ["a b", "x,y", "z"]), ("1, 2, 10", ["1", "2", "10"]), ("é, ö", ["é", "ö"]), ("A,a", ["A", "a"]),
+                          ("\"5'\", \"6'\"", ["5'", "6'"]), ("'a\"', '\"b', 'c'", ["a\"", "\"b", "c"]), ("\"''\", 'x'", ["''", "x"])]:
+        cells = choices + [c.upper() for c in choices] + [c + " " for c in choices] + ["", "nope", choices[0][:-1] or "q"] + [c.strip("'\"") for c in choices]
         expect = [True if c in choices else False for c in cells]
         for fmt in FORMATS[:1] + FORMATS[2:]:
             b.add("Choice", fmt, False, "", rule, cells, expect, tag="choice")
-    for rule, const in [("abc", "abc"), ("'a b'", "a b"), ("42", "42"), ("\"x\"", "x")]:
-        cells = [const, const.upper(), const + "x", " " + const, const[:-1] or "z"]
+    for rule, const in [("abc", "abc"), ("'a b'", "a b"), ("42", "42"), ("\"x\"", "x"), ("\"'n/a'\"", "'n/a'"), ("'\"q'", "\"q")]:
+        cells = [const, const.upper(), const + "x", " " + const, const[:-1] or "z", const.strip("'\"")]
         b.add("Constant", "delimited", False, "", rule, cells, [c == const for c in cells], tag="constant")
     b.add("Text", "delimited", False, "", "", ["x", " ", "anything at all", "é", "1"], [True] * 5, tag="text")
     # ---- DateTime --------------------------------------------------------------------------------------------------
